@@ -45,6 +45,9 @@ PRED_OPTS = [  # (argv fragment, expected: 'auto' | list | 'reject')
     (["{O}=a/1,b/2"], [("a", 1), ("b", 2)]),
     (["{O}= a/1 , b/0"], [("a", 1), ("b", 0)]),
     (["{O}", "dom/1"], [("dom", 1)]),
+    (["{O}=a/1,a/2"], [("a", 1), ("a", 2)]),
+    (["{O}=b/2,a/1,b/0"], [("b", 2), ("a", 1), ("b", 0)]),
+    (["{O}=a/1,a/1"], [("a", 1), ("a", 1)]),
     (["{O}=a"], "reject"),
     (["{O}=a/x"], "reject"),
     (["{O}=a/1/2"], "reject"),
